@@ -12,7 +12,7 @@ TUS = ['src/threading/rwp/Resource.cpp', 'src/threading/ThreadPool.cpp', 'src/th
        'witness/w_router.cpp', 'witness/w_thread.cpp', 'src/observer/routing/SubjectRouter.cpp',
        'src/observer/routing/RoutingLevelView.cpp', 'src/observer/routing/RoutingKey.cpp']
 
-SYNC_TYPES = ('std::mutex', 'std::condition_variable', 'std::recursive_mutex')
+SYNC_TYPES = ('std::mutex', 'std::condition_variable', 'std::recursive_mutex', 'tulz::rwp::Resource')    # objects that are themselves synchronisation primitives (Resource: C01-C03, C12)
 OWNER_API = {'tulz::ThreadPool': {'start', 'clear', 'update', 'stop', 'getExpiryTimeout', 'getMaxThreadCount', 'getActiveThreadCount',
                                   'getThreadCount', 'isRunning'},
              # a stand-alone tulz::Thread: the thread that owns the object starts it, polls it and joins it
